@@ -198,3 +198,66 @@ def judge_candidates(T, match_distances, match_indices, match_counts, capacity, 
             if not abs(float(md[s, k]) - d_exp) <= rtol * d_exp:
                 return {"what": "candidate distance", "source": s, "target": int(got[k]), "stored": float(md[s, k]), "expected": d_exp}
     return None
+
+
+def judge_assignment(cands, n_points, voxel, result, rel_tie=1e-9):
+    """Greedy one-to-one assignment on an explicit candidate list [(dist, source, target), ...] (what
+    process_matches_cpu2cpu receives).  Sources and targets are separate name spaces (a point may be both).
+    -> (witness or None, unique) ; unique = no two candidates sharing a source or a target are closer than rel_tie (relative)
+    in distance, so that 'by increasing distance' fixes the result."""
+    try:
+        thick, valid, pairs = (np.asarray(x) for x in result)
+    except Exception:
+        return {"what": "result is not (thickness_results, valid_mask, point_pairs)"}, False
+    if thick.shape != (n_points,) or valid.shape != (n_points,) or pairs.shape != (n_points,):
+        return {"what": "result shapes", "thickness": list(thick.shape), "valid": list(valid.shape), "pairs": list(pairs.shape)}, False
+    best = {}
+    for d, s, t in cands:
+        if (s, t) not in best or d < best[(s, t)]:
+            best[(s, t)] = d
+    by_s, by_t = {}, {}
+    for (s, t), d in best.items():
+        by_s.setdefault(s, []).append((d, t))
+        by_t.setdefault(t, []).append((d, s))
+    unique = True
+    for grp in list(by_s.values()) + list(by_t.values()):
+        if len(grp) > 1:
+            ds = np.sort(np.array([g[0] for g in grp]))
+            if np.any(np.diff(ds) < rel_tie * ds[1:]):
+                unique = False
+                break
+    vm = valid.astype(bool)
+    S = np.flatnonzero(vm).tolist()
+    got = {int(s): int(pairs[s]) for s in S}
+    for s, t in got.items():
+        if (s, t) not in best:
+            return {"what": "returned pair is not in the candidate list", "source": s, "target": t, "source_has_candidates": s in by_s}, unique
+    used = {}
+    for s, t in got.items():
+        if t in used:
+            return {"what": "target used twice", "target": t, "sources": [used[t], s]}, unique
+        used[t] = s
+    for s, t in got.items():
+        exp = best[(s, t)] * voxel
+        if not abs(float(thick[s]) - exp) <= 1e-5 * exp:
+            return {"what": "thickness != candidate distance * voxel", "source": s, "target": t, "thickness": float(thick[s]), "expected": exp}, unique
+    for (s, t), d in best.items():
+        if s not in got and t not in used:
+            return {"what": "candidate left over with both ends unmatched", "source": s, "target": t, "distance": d}, unique
+        if s in got and t not in used and d < best[(s, got[s])] * (1 - rel_tie):
+            return {"what": "matched source has a closer unmatched candidate target", "source": s, "partner": got[s],
+                    "partner_distance": best[(s, got[s])], "closer_target": t, "closer_distance": d,
+                    "gap": best[(s, got[s])] - d}, unique
+    if unique:
+        ref, us, ut = {}, set(), set()
+        for (s, t), d in sorted(best.items(), key=lambda kv: kv[1]):
+            if s in us or t in ut:
+                continue
+            us.add(s); ut.add(t); ref[s] = t
+        if ref != got:
+            diff = sorted(set(ref.items()) ^ set(got.items()))
+            s0 = diff[0][0]
+            return {"what": "assignment differs from greedy-by-increasing-distance on the candidate list", "source": s0,
+                    "returned": got.get(s0), "returned_distance": best.get((s0, got.get(s0))), "reference": ref.get(s0),
+                    "reference_distance": best.get((s0, ref.get(s0))), "n_different": len(diff)}, unique
+    return None, unique
